@@ -21,7 +21,7 @@ import fieldutil as F
 import implutil as U
 
 STATIC = ["Model/Sev.vo", "Model/Eject.vo"]
-EXTRA_PROPS = ["RK"]
+EXTRA_PROPS = ["RK", "C18b"]
 
 # numeric literals that the models account for, per function
 KNOWN = {
